@@ -93,3 +93,44 @@ Example C08_cycle_example :
   CLCycle.deadb (heap g) 1 = true /\ CLCycle.deadb (heap g) 2 = true /\
   option_map nxt (nth_error (heap g) 1) = Some (Some 2).
 Proof. vm_compute. repeat split; reflexivity. Qed.
+
+(* ---------- reference counting releases the removed nodes (CLRefcount.v) ---------- *)
+(* std::shared_ptr counts; the models above reason by reachability.  After EVERY history of critical sections (from the
+   empty list; counters non-zero), for every set of nodes that traversals in progress stand on (pins): the removed nodes
+   that cannot be reached from a pin can be released one after the other, each at a moment when every node that refers to
+   it (previous / next) has been released already — its count is zero.  With no traversal in progress this is every removed
+   node: a removed callback is released as soon as no invocation that can still reach it is in progress.  The count itself
+   (an integer per node) is not part of the models; this theorem is why reachability is the right abstraction of it. *)
+From EV Require CLRefcount.
+
+Theorem C08_counting_releases_unpinned_removed_nodes :
+  forall l pins (keep : nat -> bool),
+    Forall CLConcProofs.sec_counter_ok l ->
+    let g := fst (CLConcProofs.run_secs empty_group l) in
+    (forall x, keep x = true <-> CLRefcount.pinned (heap g) pins x) ->
+    exists order : list nat,
+      NoDup order /\
+      (forall x, In x order <-> CLCycle.deadb (heap g) x = true /\ keep x = false) /\
+      forall pre x post, order = pre ++ x :: post -> forall y, CLRefcount.refers (heap g) y x -> In y pre.
+Proof. exact CLRefcount.counting_releases_after_any_history. Qed.
+Print Assumptions C08_counting_releases_unpinned_removed_nodes.
+
+(* the graph-theoretic core, for any finite graph: a set closed under referrers and ranked along its references can be
+   released node by node with no referrer left *)
+Theorem C08_counting_releases_ranked_sets :
+  forall n (edge : nat -> nat -> Prop) (D : nat -> bool) (rk : nat -> nat) M,
+    (forall x, D x = true -> x < n /\ rk x < M) ->
+    (forall y x, edge y x -> D x = true -> D y = true) ->
+    (forall y x, edge y x -> D y = true -> D x = true -> rk y < rk x) ->
+    exists order : list nat,
+      NoDup order /\ (forall x, In x order <-> D x = true) /\
+      forall pre x post, order = pre ++ x :: post -> forall y, edge y x -> In y pre.
+Proof. exact CLRefcount.counting_releases_ranked_sets. Qed.
+Print Assumptions C08_counting_releases_ranked_sets.
+
+Example C08_release_order_example :
+  let g := fst (CLConcProofs.run_secs empty_group [CLSec.SBack 1 1%N; CLSec.SBack 2 2%N; CLSec.SBack 3 3%N; CLSec.SRemove (Some 0); CLSec.SRemove (Some 1)]) in
+  map (CLCycle.deadb (heap g)) [0; 1; 2] = [true; true; false] /\
+  (exists nd, nth_error (heap g) 0 = Some nd /\ nxt nd = Some 1) /\
+  (exists nd, nth_error (heap g) 1 = Some nd /\ nxt nd = Some 2 /\ prv nd = None).
+Proof. exact CLRefcount.release_order_example. Qed.
